@@ -688,6 +688,9 @@ fn evaluate(plan: &PlanB, kernel: &Arc<Kernel>, sh: &Sh, sent_at_ns: &[u64], _en
                     res.violate("C07", "C07.response_from_wrong_address", format!("query went to {} but the response came from {}", q.dst, s), qi);
                 }
             }
+            if Some(q.dst.ip()) == plan.lan4_alias.map(IpAddr::V4) {
+                res.probe("C07.query_to_secondary_local_address");
+            }
             if q.dst.is_ipv4() && !plan.listeners.iter().any(|l| l == "default") {
                 res.probe("C07.response_sent_from_ipv4_only_listener");
             }
